@@ -494,7 +494,49 @@ pub fn run(ctx: &Ctx) -> Report {
   let sb = Sandbox::new(&ctx.work, "c08a");
   sb.write("data", b"hello");
   sb.write("t.torrent", &B::dict(vec![("info", B::dict(vec![("name", B::s("data")), ("piece length", B::Int(16384)), ("pieces", B::Bytes(vec![1; 20])), ("length", B::Int(5))]))]).encode());
-  let args = arg_cases(&mut rng, ctx.n(700, 60_000));
+  let mut args = arg_cases(&mut rng, ctx.n(700, 60_000));
+  // fixed argument vectors: digits that are not ASCII where a port goes, topics of other lengths, an option that wants a
+  // value in last place, torrents whose shape a report or a statistic trips over
+  sb.write("nodes.torrent", b"d4:infod6:lengthi1e4:name1:a12:piece lengthi16384e6:pieces0:e5:nodesll1:[i1eeee");
+  sb.write("nodes2.torrent", b"d4:infod6:lengthi1e4:name1:a12:piece lengthi16384e6:pieces0:e5:nodesll0:i1eel1:]i2eel2:[]i3eeee");
+  sb.write("emptypath.torrent", b"d4:infod5:filesld6:lengthi0e4:pathleee4:name1:a12:piece lengthi16384e6:pieces0:ee");
+  sb.write("zero.torrent", b"d4:infod6:lengthi5e4:name1:a12:piece lengthi0e6:pieces20:aaaaaaaaaaaaaaaaaaaaee");
+  sb.write("nopieces.torrent", b"d4:infod6:lengthi5e4:name4:data12:piece lengthi2e6:pieces0:ee");
+  sb.write("statsdir/list.torrent", b"le");
+  sb.write("statsdir/list2.torrent", b"li1ee");
+  sb.write("statsdir/int.torrent", b"i1e");
+  sb.write("statsdir/str.torrent", b"0:");
+  sb.write("statsdir/empty.torrent", b"");
+  {
+    // one ordinary entry and one with three hundred thousand components
+    let mut t = b"d4:infod5:filesld6:lengthi1e4:pathl1:aeed6:lengthi1e4:pathl".to_vec();
+    t.extend_from_slice(&b"1:a".repeat(300_000));
+    t.extend_from_slice(b"eee4:name1:a12:piece lengthi16384e6:pieces0:ee");
+    sb.write("deep2.torrent", &t);
+  }
+  let hex64 = "ab".repeat(32);
+  let fixed: Vec<Vec<String>> = [
+    vec!["torrent", "link", "--input", "t.torrent", "--peer", "example.com:\u{ff11}\u{ff12}\u{ff13}\u{ff14}"],
+    vec!["torrent", "create", "--input", "data", "--dry-run", "--node", "h:\u{661}\u{662}\u{663}"],
+    vec!["torrent", "create", "--input", "data", "--dry-run", "--node", "[::1]:\u{966}"],
+    vec!["torrent", "from-link", "magnet:?xt=urn:btih:abababababababababababababababababababab&x.pe=h:\u{663}"],
+    vec!["torrent", "from-link", &format!("magnet:?xt=urn:btih:{hex64}")],
+    vec!["torrent", "from-link", &format!("magnet:?xt=urn:btih:{}", "ab".repeat(21))],
+    vec!["torrent", "from-link", &format!("magnet:?xt=urn:btih:{}", "ab".repeat(19))],
+    vec!["torrent", "from-link", "magnet:?xt=urn:btih:"],
+    vec!["--color"], vec!["torrent", "show", "t.torrent", "--color"], vec!["torrent", "show", "--input", "t.torrent", "--color", "sometimes"],
+    vec!["--terminal", "torrent", "show", "--input", "nodes.torrent"], vec!["torrent", "show", "--json", "--input", "nodes2.torrent"], vec!["torrent", "link", "--input", "nodes.torrent"],
+    vec!["torrent", "verify", "--input", "nodes2.torrent", "--content", "data"],
+    vec!["--terminal", "torrent", "show", "--input", "emptypath.torrent"], vec!["torrent", "show", "--input", "emptypath.torrent"], vec!["torrent", "verify", "--input", "emptypath.torrent", "--content", "data"],
+    vec!["torrent", "show", "--input", "zero.torrent"], vec!["torrent", "show", "--json", "--input", "zero.torrent"], vec!["--terminal", "torrent", "show", "--input", "zero.torrent"], vec!["torrent", "verify", "--input", "zero.torrent", "--content", "data"],
+    vec!["torrent", "verify", "--input", "nopieces.torrent", "--content", "data"], vec!["torrent", "verify", "--input", "nopieces.torrent"],
+    vec!["--terminal", "torrent", "show", "--input", "deep2.torrent"], vec!["torrent", "show", "--input", "deep2.torrent"], vec!["torrent", "verify", "--input", "deep2.torrent", "--content", "data"],
+    vec!["--unstable", "torrent", "stats", "--input", "statsdir"], vec!["--unstable", "torrent", "stats", "--input", "statsdir", "--print"], vec!["--unstable", "torrent", "stats", "--input", "statsdir", "--extract-pattern", "(", "--print"],
+    vec!["--unstable", "torrent", "stats", "--input", "statsdir", "--extract-pattern", ".*", "--limit", "0"],
+  ].iter().map(|v| v.iter().map(|s| s.to_string()).collect()).collect();
+  for f in fixed {
+    args.push((f, "arg:fixed"));
+  }
   let results: Vec<((Vec<String>, &'static str), crate::run::Out)> = args.into_par_iter().map(|a| { let o = Cmd::args_owned(&ctx.imdl, a.0.clone()).cwd(&sb.root).timeout_s(60).run(); (a, o) }).collect();
   for ((a, label), o) in results {
     report.case(Some(fnv(format!("{a:?}").as_bytes())));
@@ -539,6 +581,23 @@ pub fn run(ctx: &Ctx) -> Report {
       } else if o.code == Some(1) && !strip(&o.stderr_s()).contains("error") {
         report.fail("property", "exit-1-without-error-diagnostic", case, strip(&o.stderr_s()));
       }
+    }
+  }
+  // ---- a working directory that no longer exists
+  for sub in [vec!["torrent", "show", "--input", "<T>"], vec!["torrent", "create", "--input", ".", "--dry-run"], vec!["completions", "--shell", "bash"], vec!["torrent", "verify", "--input", "<T>"]] {
+    let sbx = Sandbox::new(&ctx.work, "c08w");
+    sbx.write("t.torrent", &B::dict(vec![("info", B::dict(vec![("name", B::s("data")), ("piece length", B::Int(16384)), ("pieces", B::Bytes(vec![1; 20])), ("length", B::Int(5))]))]).encode());
+    sbx.mkdir("gone");
+    let t = sbx.path("t.torrent").to_string_lossy().into_owned();
+    let a: Vec<String> = sub.iter().map(|x| x.replace("<T>", &t)).collect();
+    let o = std::process::Command::new("sh").arg("-c").arg("cd gone && rmdir ../gone && exec \"$0\" \"$@\"").arg(&ctx.imdl).args(&a).current_dir(&sbx.root).env("TERM", "dumb").output();
+    let Ok(o) = o else { continue };
+    use std::os::unix::process::ExitStatusExt;
+    let case = json!({"deleted_working_directory": true, "args": a});
+    report.case(Some(fnv(case.to_string().as_bytes())));
+    report.hit("state:deleted-working-directory");
+    if o.status.signal().is_some() || !(o.status.code() == Some(0) || o.status.code() == Some(1)) {
+      report.fail("property", "crash:deleted-working-directory", case, format!("code {:?} signal {:?}: {}", o.status.code(), o.status.signal(), String::from_utf8_lossy(&o.stderr).lines().find(|l| l.contains("panicked")).unwrap_or("")));
     }
   }
   report
